@@ -96,7 +96,7 @@ class StepChecker:
                     # a step of 1e-4 must be representable on top of the parameter: with weights beyond 1e5 (diverged
                     # training) the realised perturbation differs from the intended one by more than 1e-6 relative
                     moved = V != 0
-                    if np.any(np.spacing(np.abs(saved[moved])) > 1e-6 * 1e-4 * np.abs(V[moved])):
+                    if np.max(np.spacing(np.abs(saved[moved]))) > 1e-6 * 1e-4 * np.max(np.abs(V[moved])):
                         self.stats["unrepresentable_step_skipped"] = self.stats.get("unrepresentable_step_skipped", 0) + 1
                         continue
 
